@@ -20,6 +20,7 @@
 // Binding kinds of resolved identifiers / declaration modifier need a populated symbol table: outside.
 
 use crate::document::__verif::{is_boundary, ref_position, sym_text, u16_units};
+use spl_frontend::ast::Identifier;
 use spl_frontend::tokens::IntResult;
 
 #[derive(Clone, Copy, PartialEq)]
@@ -290,6 +291,82 @@ fn c15_s1_procdec_across() {
     check_stream(&first, &second, [c0, c1], r);
     std::mem::forget(first);
     std::mem::forget(second);
+}
+
+/// S4: the `declaration` modifier on the declaring occurrence, at the two sites that do not need a populated
+/// symbol table: the name of a type declaration and the name of a procedure declaration.  `name` is an
+/// Identifier whose range is a TOKEN-INDEX range relative to the declaration's Reference (ast.rs); the
+/// modifier must be set on the token with that index and on no other.
+/// KNOWN FINDING (class decl_modifier_units, known_findings.txt): the real code compares that token-index
+/// range with the token's BYTE range, so these harnesses FAIL on the pinned tree; they are run only while the
+/// class is listed and their failure is printed as KNOWN-FINDING.
+fn ident_tokens(r: [usize; 4]) -> std::mem::ManuallyDrop<[Token; 2]> {
+    std::mem::ManuallyDrop::new([
+        Token::new(TokenType::Ident(String::new()), r[0]..r[1]),
+        Token::new(TokenType::Ident(String::new()), r[2]..r[3]),
+    ])
+}
+
+#[kani::proof]
+#[kani::unwind(16)]
+fn c15_s4_decl_modifier_typedec() {
+    let text = TEXT;
+    let r: [usize; 4] = kani::any();
+    kani::assume(r[0] < r[1] && r[1] <= r[2] && r[2] < r[3] && r[3] <= text.len());
+    kani::assume(is_boundary(r[0], text) && is_boundary(r[1], text) && is_boundary(r[2], text) && is_boundary(r[3], text));
+    let ni: usize = kani::any();
+    kani::assume(ni < 2);
+    let toks = ident_tokens(r);
+    let td = std::mem::ManuallyDrop::new(TypeDeclaration {
+        doc: Vec::new(),
+        name: Some(Identifier { value: String::new(), info: AstInfo::new(ni..ni + 1) }),
+        type_expr: None,
+        info: AstInfo::new(0..2),
+    });
+    let mut prev = Position { line: 0, character: 0 };
+    let out = collect_type_dec(&td, text, &toks[..], &mut prev);
+    let n = out.len();
+    let m0 = if n > 0 { out[0].token_modifiers_bitset } else { 99 };
+    let m1 = if n > 1 { out[1].token_modifiers_bitset } else { 99 };
+    std::mem::forget(out);
+    assert!(n == 2, "C15/S4 both identifiers of a type declaration are emitted");
+    assert!((m0 == 1) == (ni == 0) && (m0 == 0) == (ni != 0), "C15/S4 declaration modifier exactly on the declaring occurrence (type name, first token)");
+    assert!((m1 == 1) == (ni == 1) && (m1 == 0) == (ni != 1), "C15/S4 declaration modifier exactly on the declaring occurrence (type name, second token)");
+}
+
+// NOT REGISTERED: with `name: Some(..)` the real get_local_table() hashes the name with the (symbolic) hasher
+// keys; no verdict in 15 min / 3 GB.  Kept for reference; the finding is decided on the type-declaration site.
+#[kani::proof]
+#[kani::unwind(16)]
+#[kani::stub(std::collections::hash_map::RandomState::new, any_random_state)]
+fn c15_s4_decl_modifier_procdec() {
+    let text = TEXT;
+    let r: [usize; 4] = kani::any();
+    kani::assume(r[0] < r[1] && r[1] <= r[2] && r[2] < r[3] && r[3] <= text.len());
+    kani::assume(is_boundary(r[0], text) && is_boundary(r[1], text) && is_boundary(r[2], text) && is_boundary(r[3], text));
+    let ni: usize = kani::any();
+    kani::assume(ni < 2);
+    let toks = ident_tokens(r);
+    let pd = std::mem::ManuallyDrop::new(ProcedureDeclaration {
+        doc: Vec::new(),
+        name: Some(Identifier { value: String::new(), info: AstInfo::new(ni..ni + 1) }),
+        parameters: Vec::new(),
+        variable_declarations: Vec::new(),
+        statements: Vec::new(),
+        info: AstInfo::new(0..2),
+    });
+    let table = std::mem::ManuallyDrop::new(GlobalTable { entries: std::collections::HashMap::new() });
+    let mut prev = Position { line: 0, character: 0 };
+    let out = collect_proc_dec(&pd, &table, text, &toks[..], &mut prev);
+    let n = out.len();
+    let (m, ty, dl, ds) = if n > 0 { (out[0].token_modifiers_bitset, out[0].token_type, out[0].delta_line, out[0].delta_start) } else { (99, 99, 0, 0) };
+    std::mem::forget(out);
+    // the other identifier is unresolved (empty table) and emits nothing
+    assert!(n == 1, "C15/S4 exactly the procedure name is emitted (the other identifier is unresolved)");
+    assert!(m == 1, "C15/S4 declaration modifier on the procedure name");
+    assert!((ty as usize) < TOKEN_TYPES.len() && TOKEN_TYPES[ty as usize] == lsp_types::SemanticTokenType::FUNCTION, "C15/S4 procedure name is a function");
+    let (l, c) = ref_position(r[2 * ni], text);
+    assert!(dl == l && ds == c, "C15/S4 the emitted token is the one with the name's token index");
 }
 
 /// S3 for every token kind of the real TokenType (one token, ASCII text)
